@@ -463,6 +463,7 @@ class Exec:
         self.raises = []               # (pc list, exc) of callee raise paths met while executing
         self.fresh = itertools.count()
         self.locals = {}
+        self.prim_log = []          # (primitive, args, result, enclosing function) of every primitive call, for role-based ghost values
         self.stores = []               # frame log: (target description, provenance)
         self.rng_calls = []            # names of RNG primitives reached
         self.calls = []                # (callee, lineno) log
@@ -1414,9 +1415,13 @@ class Exec:
         if isinstance(f, tuple):
             tag = f[0]
             if tag == "prim":
-                return self.prims[f[1]](self, path, *args, **kw)
+                r_ = self.prims[f[1]](self, path, *args, **kw)
+                self.prim_log.append((f[1], args, r_, self.cur_fn[-1] if self.cur_fn else None))
+                return r_
             if tag == "bound":
-                return self.prims[f[1]](self, path, f[2], *args, **kw)
+                r_ = self.prims[f[1]](self, path, f[2], *args, **kw)
+                self.prim_log.append((f[1], (f[2],) + tuple(args), r_, self.cur_fn[-1] if self.cur_fn else None))
+                return r_
             if tag == "pymethod":
                 return getattr(f[1], f[2])(*args, **kw)
             if tag == "method":
